@@ -1,6 +1,7 @@
 import HapModel.Model.HapFormat
 import HapModel.Model.HapComments
 import HapModel.Model.HapVersion
+import HapModel.Model.HapHeader
 /-!
 # C06 — `.hap` files round-trip and are parsed according to their header
 
@@ -70,5 +71,20 @@ theorem version_accepted (o e : Nat × Nat × Nat) (h1 : o.1 = e.1) (h2 : o.2.1 
   split
   · simp
   · split <;> simp
+
+/-- **undeclared-but-required fields are reported**: `check_header` issues its report (a warning, or a `ValueError`
+    with `softly=False`) exactly when some line type's class requires an extra field that no header line declares for
+    *that* line type, and the report names exactly those `#t name` pairs – declaring the same name for another line
+    type does not satisfy the requirement, and a fully declared header is never reported -/
+theorem undeclared_required_reported (c : HapFormat.Classes) (lines : List HapFormat.Line) :
+    (HapFormat.reported c lines = true ↔
+        ∃ t n, n ∈ c.names t ∧ n ∉ (HapFormat.checkHeader lines).declared t) ∧
+    (∀ t n, (t, n) ∈ HapFormat.missing c lines ↔
+        n ∈ c.names t ∧ n ∉ (HapFormat.checkHeader lines).declared t) :=
+  ⟨HapFormat.reported_iff c lines, HapFormat.mem_missing c lines⟩
+
+/-- non-vacuity: H and R both require `beta`; a header declaring it only for H is reported for R (and only R) -/
+example : HapFormat.missing ⟨fun t => match t with | .H => [("beta", ".2f", "x")] | .R => [("beta", ".2f", "x")] | .V => []⟩
+    [["#H", "beta", ".2f", "x"]] = [(.R, "beta")] := by decide
 
 end C06
